@@ -53,3 +53,15 @@ pub fn ok_header_write_from_char_accumulator(acc: OkAccum, cell: &mut Cell) {
     let n = cell.as_char_list_mut();
     *n = acc.count;
 }
+
+/// D1b control: a character truncated to its low byte.
+pub fn ctl_char_as_u8(c: char, out: &mut Vec<u8>) {
+    out.push(c as u8);
+}
+
+/// D1b negative control: a constant ASCII escape and the UTF-8 encoding of a character.
+pub fn ok_char_utf8(c: char, out: &mut Vec<u8>) {
+    out.push('\n' as u8);
+    let mut buf = [0u8; 4];
+    out.extend_from_slice(c.encode_utf8(&mut buf).as_bytes());
+}
